@@ -154,6 +154,38 @@ def _root_name(e: ast.AST) -> str | None:
     return e.id if isinstance(e, ast.Name) else None
 
 
+
+def _mutable_default_uses(fn: ast.AST):
+    """[(param, default expr, first offending node or None, why)] for every parameter of fn whose default is a mutable literal"""
+    MUT = ("append", "add", "update", "setdefault", "pop", "popitem", "clear", "extend", "insert", "remove", "discard", "__setitem__")
+    a_ = fn.args  # type: ignore[attr-defined]
+    pos = a_.posonlyargs + a_.args
+    defaults = dict(zip([x.arg for x in pos[len(pos) - len(a_.defaults):]], a_.defaults))
+    defaults.update({x.arg: d for x, d in zip(a_.kwonlyargs, a_.kw_defaults) if d is not None})
+    out = []
+    for pn, d in defaults.items():
+        mutable = isinstance(d, (ast.Dict, ast.List, ast.Set)) or (isinstance(d, ast.Call) and unparse(d.func) in ("dict", "list", "set", "defaultdict", "OrderedDict"))
+        if not mutable:
+            continue
+        uses = []
+        rebound = any(isinstance(n, ast.Name) and n.id == pn and isinstance(n.ctx, ast.Store) for n in walk_local(fn))
+        for n in walk_local(fn):
+            if isinstance(n, (ast.Assign, ast.AugAssign)):
+                tgs = n.targets if isinstance(n, ast.Assign) else [n.target]
+                if any(isinstance(t_, ast.Subscript) and unparse(t_.value) == pn for t_ in tgs) or (isinstance(n, ast.AugAssign) and unparse(n.target) == pn):
+                    uses.append((n, f"`{unparse(n)[:60]}` writes it"))
+            if isinstance(n, ast.Call):
+                if isinstance(n.func, ast.Attribute) and unparse(n.func.value) == pn and n.func.attr in MUT:
+                    uses.append((n, f"`{unparse(n)[:60]}` writes it"))
+                elif any(isinstance(x, ast.Name) and x.id == pn for x in list(n.args) + [k.value for k in n.keywords]) and not (isinstance(n.func, ast.Name) and n.func.id in ("dict", "list", "set", "tuple", "len", "isinstance", "frozenset", "sorted")):
+                    uses.append((n, f"`{unparse(n)[:60]}` hands it to another function"))
+        if uses and not rebound:
+            out.append((pn, d, uses[0][0], uses[0][1]))
+        else:
+            out.append((pn, d, None, ""))
+    return out
+
+
 def check(idx: Index, rep: Report, tier: str) -> str:
     r1 = rep.rule("C02.R1", "clone functions write (attribute stores, IR mutators) only to objects created by the clone; the only write to `dest` is the block insertion of the fresh blocks", floor=8)
     funcs = ["Operation.clone_without_regions", "Operation.clone", "Region.clone", "Region.clone_into"]
@@ -481,6 +513,23 @@ def check(idx: Index, rep: Report, tier: str) -> str:
                 r6.fail(inst, Finding("C02.R6", f.fq, f"falsy-default:{a.arg}", f"`{unparse(bad)[:80]}` treats {a.arg}=0 like None: cloning to position 0 of a non-empty destination appends instead", f"{f.module.relpath}:{bad.lineno}"))
             else:
                 r6.ok(inst, f"{f.loc} {a.arg} defaulted on `is None` only")
+
+    r7 = rep.rule("C02.R7", "a clone function keeps no state between calls: a parameter whose default is a mutable literal ({} / [] / set() / dict()) is neither written nor handed on to another function", floor=None)
+    for q in funcs:
+        f = idx.func(CORE, q)
+        for pn, d, n0, why in _mutable_default_uses(f.node):
+            inst = f"{f.fq}:{pn}"
+            if n0 is not None:
+                r7.fail(inst, Finding("C02.R7", f.fq, f"mutable-default:{pn}", f"parameter `{pn}` defaults to the mutable literal `{unparse(d)}`, created once when the function is defined, and {why}: entries recorded by one clone are still there for the next call without a mapper, which then redirects operands / successors to the copies made by an unrelated earlier clone", f"{f.module.relpath}:{getattr(n0, 'lineno', f.raw_node.lineno)}"))
+            else:
+                r7.ok(inst, f"{f.loc} `{pn}` has a mutable default that is never written")
+    # the expected count on today's tree is zero: a positive example must be recognised on every run
+    pos_ = _mutable_default_uses(ast.parse("def f(self, m={}):\n    m[self] = 1\n").body[0])
+    neg_ = _mutable_default_uses(ast.parse("def f(self, m=None):\n    m = {} if m is None else m\n    m[self] = 1\n").body[0])
+    if [x[2] is not None for x in pos_] == [True] and not neg_:
+        r7.ok("self-check", "`def f(self, m={}): m[self] = 1` is reported, the `m=None` idiom is not")
+    else:
+        raise AnalysisError("C02.R7: the mutable-default detector fails its positive / negative example")
 
     return (
         "Derivation analysis (reaching definitions through constructors, zip/enumerate components and fresh local lists) "
